@@ -2,6 +2,7 @@ import os, sys, json, re, random
 sys.path.insert(0, os.path.join(os.path.dirname(os.path.abspath(__file__)), '..', 'lib'))
 import vlib, flow, gen_trans
 gen_trans.register('kfmt_ring.json')   # Go -> Gallina translation of ringBuffer.Write/Read (Gen/Trans_kfmt_ring.v, used by Kfmt/RingTrans.v)
+gen_trans.register('kfmt_sink.json')   # ... of kfmt.SetOutputSink / GetOutputSink (Gen/Trans_kfmt_sink.v, used by Kfmt/SinkTrans.v)
 gen_trans.register('hal.json')   # ... of hal.go's linkTTYToConsole / onConsoleInit / onDriverInit and DriverInfoList.Less (Gen/Trans_hal.v, used by Hal/HalTrans.v)
 gen_trans.register('kfmt_prefix.json')   # ... of PrefixWriter.Write (Gen/Trans_kfmt_prefix.v, used by Kfmt/PrefixTrans.v)
 
@@ -168,7 +169,7 @@ class C16(flow.Spec):
     prop = 'C16'
     props_files = ['theories/Props/C16.v', 'theories/Props/C16_vt.v', 'theories/Props/C16_examples.v', 'theories/Props/C16_ring_trans.v', 'theories/Props/C16_ring_trans_examples.v',
                    'theories/Props/C16_prefix_trans.v', 'theories/Props/C16_prefix_trans_examples.v',
-                   'theories/Props/C16_hal_trans.v', 'theories/Props/C16_hal_trans_examples.v']
+                   'theories/Props/C16_hal_trans.v', 'theories/Props/C16_hal_trans_examples.v', 'theories/Props/C16_sink_trans.v']
     model_targets = ['theories/Hal/Model.vo', 'theories/Kfmt/Ring.vo']
     pkg = 'hal'
     harness = [os.path.join(HH, 'zz_verif_c16_test.go')]
